@@ -122,6 +122,15 @@ func Records() {
 // Rows: genuine record, corrupted key rows in the metastore.
 func Rows() {
 	w := setup()
+	// the decrypting process is cold, or already holds the keys - still fresh, or due for their revoke check - when
+	// the rows get corrupted (a reload then meets a row that no longer matches what is cached)
+	state := vx.Choice("reader_caches", 3)
+	var warm *ae.Session
+	if state != 0 {
+		warm, _ = w.f.GetSession("p0")
+		out, err := warm.Decrypt(env.Ctx, *w.r1)
+		vx.Assert("C07.genuine_decrypts_before_corruption", vx.And(err == nil, vx.BytesEq(out, w.p1)))
+	}
 	ikRow := w.e.Store.Row(w.r1.Key.ParentKeyMeta.ID, w.r1.Key.ParentKeyMeta.Created)
 	skRow := w.e.Store.Row(ikRow.ParentKeyMeta.ID, ikRow.ParentKeyMeta.Created)
 	row := ikRow
@@ -159,6 +168,17 @@ func Rows() {
 		}
 	}
 	s, _ := w.f.GetSession("p0")
+	if warm != nil {
+		s = warm
+		if state == 2 {
+			t, _ := vx.Now()
+			vx.ClockFreeze(false)
+			vx.ClockMin(t + 3700) // past the revoke-check interval of the policy in use (60 min)
+			vx.Now()
+			vx.ClockFreeze(true)
+			vx.Tag("reader", "stale-caches")
+		}
+	}
 	vx.FaultBudget("ext", vx.Param("faults"))
 	w.oracle("C07.plaintext_or_error_with_corrupt_rows", *w.r1, s)
 	vx.FaultBudget("ext", 0)
